@@ -121,10 +121,28 @@ func verifC18Dash(s string) string {
 }
 
 type verifC18Env struct {
-	broker *MemoryBroker
+	broker Broker
 	rec    *verifC18Recorder
 	ep     *verifC18Epochs
 	start  time.Time
+	// Redis variant: the real RedisBroker over the fake endpoint; PUBLISHed messages are handed to the
+	// real handleRedisClientMessage
+	redis *RedisBroker
+	fake  *verifFakeRedis
+}
+
+// afterPublish delivers what the Redis side PUBLISHed during the op through the real PUB/SUB handler.
+func (env *verifC18Env) afterPublish() string {
+	if env.redis == nil {
+		return ""
+	}
+	note := ""
+	for _, m := range env.fake.drainOutbox() {
+		if err := env.redis.handleRedisClientMessage(false, env.rec, channelID(m.channel), []byte(m.payload)); err != nil {
+			note = "undeliverable"
+		}
+	}
+	return note
 }
 
 func (env *verifC18Env) sleepUntil(at time.Duration) {
@@ -133,6 +151,20 @@ func (env *verifC18Env) sleepUntil(at time.Duration) {
 		time.Sleep(d)
 	}
 	synctest.Wait()
+}
+
+// verifC18Err maps Go errors to the enum the model prints.
+func verifC18Err(err error) string {
+	m := err.Error()
+	switch {
+	case strings.HasPrefix(m, "wrong Redis reply offset"):
+		return "reply:offset"
+	case strings.HasPrefix(m, "wrong Redis reply"):
+		return "reply:" + strings.ReplaceAll(strings.TrimPrefix(m, "wrong Redis reply "), " ", "_")
+	case strings.Contains(m, "VERIFMODEL"):
+		return "UNSUPPORTED:" + strings.ReplaceAll(m, " ", "_")
+	}
+	return "other:" + strings.ReplaceAll(m, " ", "_")
 }
 
 func verifC18FmtPubs(pubs []*Publication) string {
@@ -186,8 +218,9 @@ func (env *verifC18Env) step(line string) (res string) {
 			VersionEpoch:        verifC18Dash(vep),
 			UseDelta:            delta != 0,
 		})
+		note := env.afterPublish()
 		if err != nil {
-			return "err=" + strings.ReplaceAll(err.Error(), " ", "_")
+			return "err=" + verifC18Err(err)
 		}
 		sup := "none"
 		if r.Suppressed {
@@ -204,6 +237,9 @@ func (env *verifC18Env) step(line string) (res string) {
 		}
 		resEp := env.ep.canon(r.Epoch) // result epoch is numbered before the broadcast's epoch
 		bc := "-"
+		if note != "" && len(env.rec.calls) == 0 {
+			bc = note
+		}
 		if len(env.rec.calls) == 1 {
 			c := env.rec.calls[0]
 			prev := "-"
@@ -258,7 +294,7 @@ func (env *verifC18Env) step(line string) (res string) {
 			MetaTTL: time.Duration(meta) * time.Millisecond,
 		})
 		if err != nil {
-			return "err=" + strings.ReplaceAll(err.Error(), " ", "_")
+			return "err=" + verifC18Err(err)
 		}
 		return fmt.Sprintf("pos=%d:%d pubs=%s", sp.Offset, env.ep.canon(sp.Epoch), verifC18FmtPubs(pubs))
 	case "rm":
@@ -288,6 +324,10 @@ func (env *verifC18Env) step(line string) (res string) {
 // verifC18Scenario runs one `reset …` scenario in its own synctest bubble and returns one
 // output line per input line.
 func verifC18Scenario(t *testing.T, lines []string) []string {
+	return verifC18ScenarioWith(t, lines, nil)
+}
+
+func verifC18ScenarioWith(t *testing.T, lines []string, fake *verifFakeRedis) []string {
 	out := make([]string, 0, len(lines))
 	ws := strings.Fields(lines[0])
 	meta, ok := verifC18Uint(ws[1:], "meta")
@@ -306,16 +346,37 @@ func verifC18Scenario(t *testing.T, lines []string) []string {
 		if err != nil {
 			t.Fatal(err)
 		}
-		broker, err := NewMemoryBroker(node, MemoryBrokerConfig{})
-		if err != nil {
-			t.Fatal(err)
-		}
 		rec := &verifC18Recorder{}
-		if err := broker.RegisterBrokerEventHandler(rec); err != nil {
-			t.Fatal(err)
+		env := &verifC18Env{rec: rec, start: start, ep: &verifC18Epochs{idx: map[string]int{}}}
+		var closeFn func()
+		if fake == nil {
+			broker, err := NewMemoryBroker(node, MemoryBrokerConfig{})
+			if err != nil {
+				t.Fatal(err)
+			}
+			if err := broker.RegisterBrokerEventHandler(rec); err != nil {
+				t.Fatal(err)
+			}
+			env.broker = broker
+			closeFn = func() { _ = broker.Close(context.Background()) }
+		} else {
+			fake.reset()
+			lists, _ := verifC18Uint(ws[1:], "lists")
+			shard, err := verifFakeShard(fake)
+			if err != nil {
+				t.Fatal(err)
+			}
+			rb, err := NewRedisBroker(node, RedisBrokerConfig{Shards: []*RedisShard{shard}, UseLists: lists != 0})
+			if err != nil {
+				t.Fatal(err)
+			}
+			env.broker, env.redis, env.fake = rb, rb, fake
+			closeFn = func() {
+				_ = rb.Close(context.Background())
+				shard.Close()
+				_ = node.Shutdown(context.Background())
+			}
 		}
-		env := &verifC18Env{broker: broker, rec: rec, start: start,
-			ep: &verifC18Epochs{idx: map[string]int{}}}
 		out = append(out, fmt.Sprintf("ok t0=%d", start.UnixMilli()))
 		for _, l := range lines[1:] {
 			if l == "" || strings.HasPrefix(l, "#") {
@@ -324,7 +385,7 @@ func verifC18Scenario(t *testing.T, lines []string) []string {
 			}
 			out = append(out, env.step(l))
 		}
-		_ = broker.Close(context.Background())
+		closeFn()
 		synctest.Wait()
 	})
 	return out
@@ -378,4 +439,19 @@ func verifC18Run(t *testing.T, step func(t *testing.T, scenario []string) []stri
 
 func TestVerifC18Mem(t *testing.T) {
 	verifC18Run(t, verifC18Scenario)
+}
+
+// TestVerifC18Redis runs the same op lines through the REAL RedisBroker (Go glue of broker_redis.go)
+// over the fake endpoint backed by the Lean model of Redis + the translated Lua scripts.
+func TestVerifC18Redis(t *testing.T) {
+	if os.Getenv("VERIF_OPS") == "" {
+		t.Skip("no VERIF_OPS")
+	}
+	lean, err := verifLeanStart()
+	if err != nil {
+		t.Fatal(err)
+	}
+	defer lean.stop()
+	fake := verifFakeRedisNew(lean)
+	verifC18Run(t, func(t *testing.T, sc []string) []string { return verifC18ScenarioWith(t, sc, fake) })
 }
